@@ -173,6 +173,7 @@ def run(prog, rep, tier, cfg):
             m_pred('BTreeSet::<T, A>::insert', [], True), 'duplicate signer => Err')
     # ---- error discipline: no Result produced in these crates is silently discarded
     X.no_dropped_results('K14', 'results-not-discarded', ['fil_actor_multisig'], 'no Result of a call is discarded')
+    X.tolerated_failures('K15', 'tolerated-failures', ['fil_actor_multisig'], 'tolerated failures are the reviewed ones')
 
 
 
